@@ -6,6 +6,16 @@ pub open spec fn rne_div(n: int, m: int) -> int {
     let q = n / m; let r = n % m;
     if 2 * r > m || (2 * r == m && q % 2 == 1) { q + 1 } else { q }
 }
+// the rounded quotient of a numerator below mn * p is at most p
+pub proof fn lemma_rne_upper(nn: int, mn: int, p: int)
+    requires mn > 0, p >= 0, 0 <= nn < mn * p
+    ensures 0 <= rne_div(nn, mn) <= p
+{
+    lemma_fundamental_div_mod(nn, mn); lemma_mod_bound(nn, mn);
+    let q = nn / mn; let r = nn % mn;
+    assert(q < p) by (nonlinear_arith) requires nn == mn * q + r, r >= 0, nn < mn * p, mn > 0;
+    assert(q >= 0) by (nonlinear_arith) requires nn == mn * q + r, r < mn, nn >= 0, mn > 0;
+}
 // step 1: the two shifts compute floor(N / h), h = 2^(d-1), and report whether that division was exact
 pub proof fn lemma_decbin_shifts(val: int, nbits: int, d: int, b: int)
     requires 1 <= d <= b + 1, 0 <= nbits <= b, val >= 0
